@@ -13,6 +13,7 @@ PROP = dict(
         "MM.C17.C17_no_orphans",
         "MM.C17.C17_agent_disconnect_clean",
         "MM.C17.C17_pinned_udp_leak",
+        "MM.C17.C17_udp_close_pops_relay",
         "MM.C17.C17_count_matches",
         "MM.C17.C17_handlers_return_to_empty",
         "MM.C17.C17_late_teardown_spares_newer_record",
